@@ -135,7 +135,6 @@ class _Runner:
             b = got_all[rev_walk(w)]
             if a.startswith("raised") or b.startswith("raised"):
                 continue
-            ctx.evaluations += 1
             if b != revcomp(a):
                 ctx.fail("reversed-walk", "on %s extract_path(%r) = %r but the reversed walk %r gives %r" % (_show(lines), path_str(w), a, path_str(rev_walk(w)), b),
                          dict(base, type="reverse", path=path_str(w)))
